@@ -18,7 +18,7 @@ ASSUMPTIONS = [
     "cfg(kani) harness modules appended to scratch copies; executable text unchanged",
 ]
 NOT_DECIDED = [
-    "DoubleOps for BTreeMap<K,V> (iterator chains with closures: outside Verus's subset; CBMC gives no answer for two entries)",
+    "DoubleOps for BTreeMap<K,V> (iterator chains with closures: outside Verus's subset; CBMC gives no answer for two entries in 7 min, nor for at most one entry in 10 min)",
     "Vec hash law beyond length 2",
     "which fields the generator decorates (C02/C03 territory)",
 ]
@@ -72,8 +72,6 @@ KANI_UNITS = [
                "equal vectors feed the hasher identical streams", kind="bounded", bound="len <= 2", timeout=600),
              H("vec_f64_trans_len2", "C14.K.vec_f64.trans_len2", P, ["DoubleOps for Vec<T>::cmp"],
                "transitivity for triples of Vec<f64> of length <= 2", kind="bounded", bound="len <= 2", tier="thorough", timeout=1800),
-             H("btreemap_f64_pair_laws_len1", "C14.K.btreemap_f64.laws_len1", P, ["DoubleOps for BTreeMap<K,V>::cmp", "DoubleOps for BTreeMap<K,V>::eq", "DoubleOps for BTreeMap<K,V>::hash"],
-               "L1-L3, L6 for pairs of BTreeMap<u8,f64> with at most one entry", kind="bounded", bound="at most 1 entry", tier="thorough", timeout=600),
          ]),
     dict(name="double_key", crate="conjure-object", modpath="double_key::verif_c14",
          injections=[dict(file=D, module_file="double_key.kani.rs")],
